@@ -265,7 +265,7 @@ def run_check(prop, tier):
                     if not os.path.basename(wrel).startswith(prop + "-"):
                         continue            # a witness is replayed by the check of the family that found it
                     w = os.path.join(VERIF, wrel)
-                    rp = sh([exe, "-replay", w, "-model", os.path.join(OCAML, "xmodel")], cwd=scratch, env=GOENV, check=False)
+                    rp = sh([exe, "-replay", w, "-model", os.path.join(OCAML, "xmodel")] + (["-cli", cli] if cli else []), cwd=scratch, env=GOENV, check=False)
                     nfixed += 1
                     if rp.returncode == 1:
                         violations.append((w, "a repaired defect has returned (%s %s): %s" % (e["commit"], e["what"], rp.stdout[-400:])))
